@@ -379,6 +379,10 @@ func c06Handlers(res *vResult, replay *seqCase) {
 			add("est-alloc", sessReq{sReq: sReq{Kind: kEst, Conn: 0, CPSEID: seid, CreatePDR: p, CreateFAR: f, CreateQER: q}})
 			p2 := append(append([]sPDR{}, p...), sPDR{ID: 9, Prec: 10, Src: ie.SrcInterfaceCore, UEIP: "16.9.9.9", BadSDF: true, FAR: 2})
 			add("est-alloc-rejected-later-pdr", sessReq{sReq: sReq{Kind: kEst, Conn: 0, CPSEID: seid, CreatePDR: p2, CreateFAR: f, CreateQER: q}})
+			// the uplink rule, too, carries a UE IP Address IE that asks the UP for the address (one address per session)
+			pb := append([]sPDR{}, p...)
+			pb[0].UEAlloc = true
+			add("est-alloc-both-directions", sessReq{sReq: sReq{Kind: kEst, Conn: 0, CPSEID: seid, CreatePDR: pb, CreateFAR: f, CreateQER: q}})
 		}
 		for _, x := range live {
 			add("del", sessReq{sReq: sReq{Kind: kDel, Conn: 0}, Sess: x.Idx})
@@ -395,6 +399,8 @@ func c06Handlers(res *vResult, replay *seqCase) {
 				add("mod-create-alloc-pdr", sessReq{sReq: sReq{Kind: kMod, Conn: 0, CreatePDR: []sPDR{{ID: 5, Prec: 60, Src: ie.SrcInterfaceCore, UEAlloc: true, SDF: "permit out udp from 10.7.0.0/16 5000 to assigned", FAR: 2}}}, Sess: x.Idx})
 			}
 			add("mod-rejected-remove-unknown", sessReq{sReq: sReq{Kind: kMod, Conn: 0, RemovePDR: []uint16{99}}, Sess: x.Idx})
+			// the downlink rule that was given the address is removed: the session lives on and still holds its address
+			add("mod-remove-alloc-pdr", sessReq{sReq: sReq{Kind: kMod, Conn: 0, RemovePDR: []uint16{2}}, Sess: x.Idx})
 		}
 		if len(live) > 0 {
 			add("release", sessReq{sReq: sReq{Kind: kRel, Conn: 0}})
@@ -427,6 +433,9 @@ func c06Handlers(res *vResult, replay *seqCase) {
 					given[x.UPSEID] = int2ip(p.UE).String()
 				}
 			}
+			if x.GivenAddr != 0 {
+				given[x.UPSEID] = int2ip(x.GivenAddr).String()
+			}
 		}
 		if c.req.Kind == kEst && c.accepted && c.newSess != nil {
 			ue := ""
@@ -444,7 +453,7 @@ func c06Handlers(res *vResult, replay *seqCase) {
 				}
 			}
 		}
-		if c.req.Label == "est-alloc" && !c.accepted && len(given) < len(ref.usable) {
+		if (c.req.Label == "est-alloc" || c.req.Label == "est-alloc-both-directions") && !c.accepted && len(given) < len(ref.usable) {
 			bad("refused", "establishment refused with %d of %d addresses held", len(given), len(ref.usable))
 		}
 		inv, free := pool(s)
